@@ -218,7 +218,7 @@ func (m *c08Monitor) onDelivery(n int, tx *gobinlog.Transaction, d *run.Delivere
 func checkC08(c *core.Ctx) {
 	c.SetRule("histories rich in temporal columns (one value in three the type's all-zero value, half of the fractional columns with 0 digits), blobs sized around the driver's 4096-byte read buffer (4 000..4 100, 8 100..8 200, 16 300..16 390, 70 000 bytes) and many tiny events; master far ahead, slow handler, transport reads chunked (1-byte, header-splitting, exactly-4096, random); every delivered transaction is retained; monitors: snapshot vs live object at every later delivery and after quiescence, address-range overlap of every byte slice reachable from a delivered transaction through exported fields (by reflection), scribble (XOR every byte of every value, one value at a time) then all later deliveries and a SECOND stream of the same history in the same process are compared with the model; race reports between handler code and library code count. distinct by (history bytes, scribble); non-trivial iff >= 2 deliveries carry values")
 	c.Assume("only bytes [0,len) of a delivered value are written or compared")
-	nh := c.N(80, 1500)
+	nh := c.N(80, 4000)
 	if c.Replay != "" {
 		var w struct {
 			Witness struct {
